@@ -46,48 +46,48 @@ theorem logCrop_congr (L : ℚ → ℚ) (crop crop' : ℤ → ℤ → ℚ) (h w 
 
 theorem refineCenter_congr (corr corr' : ℤ → ℤ → ℚ) (h w cy cx : ℤ) (hy : 0 ≤ cy ∧ cy < h) (hx : 0 ≤ cx ∧ cx < w)
     (hag : AgreeOn corr corr' h w) :
-    refineCenter corr h w cy cx Gen.refine_radius = refineCenter corr' h w cy cx Gen.refine_radius := by
+    refineCenter corr h w cy cx Model.refine_radius = refineCenter corr' h w cy cx Model.refine_radius := by
   unfold refineCenter
   simp only []
   have hb := C03.refine_cut_in_bounds cy cx h w hy hx
   simp only [] at hb
-  set r := Gen.refine_r Gen.refine_radius cy cx h w with hr
-  by_cases hg : Gen.refine_guard r = true
+  set r := Model.refine_r Model.refine_radius cy cx h w with hr
+  by_cases hg : Model.refine_guard r = true
   · rw [if_pos hg, if_pos hg]
   · rw [if_neg hg, if_neg hg]
-    have hgf : Gen.refine_guard r = false := by simpa using hg
+    have hgf : Model.refine_guard r = false := by simpa using hg
     obtain ⟨hr0, hr2, hcut⟩ := hb
     obtain ⟨hly, hhy, hlx, hhx, hny, hnx⟩ := hcut hgf
-    have hcutag : AgreeOn (fun y x => corr (Gen.cut_lo cy r + y) (Gen.cut_lo cx r + x))
-        (fun y x => corr' (Gen.cut_lo cy r + y) (Gen.cut_lo cx r + x))
-        (Gen.cut_hi cy r - Gen.cut_lo cy r) (Gen.cut_hi cx r - Gen.cut_lo cx r) := by
+    have hcutag : AgreeOn (fun y x => corr (Model.cut_lo cy r + y) (Model.cut_lo cx r + x))
+        (fun y x => corr' (Model.cut_lo cy r + y) (Model.cut_lo cx r + x))
+        (Model.cut_hi cy r - Model.cut_lo cy r) (Model.cut_hi cx r - Model.cut_lo cx r) := by
       intro y x hy0 hy1 hx0 hx1
       exact hag _ _ (by omega) (by omega) (by omega) (by omega)
     have hmin := flat_congr _ _ _ _ hcutag
     rw [hmin]
     have e1 : ∀ (φ : ℤ → ℤ → ℚ → ℚ),
-        flat (fun y x => φ y x (corr (Gen.cut_lo cy r + y) (Gen.cut_lo cx r + x)))
-          (Gen.cut_hi cy r - Gen.cut_lo cy r) (Gen.cut_hi cx r - Gen.cut_lo cx r)
-        = flat (fun y x => φ y x (corr' (Gen.cut_lo cy r + y) (Gen.cut_lo cx r + x)))
-          (Gen.cut_hi cy r - Gen.cut_lo cy r) (Gen.cut_hi cx r - Gen.cut_lo cx r) := by
+        flat (fun y x => φ y x (corr (Model.cut_lo cy r + y) (Model.cut_lo cx r + x)))
+          (Model.cut_hi cy r - Model.cut_lo cy r) (Model.cut_hi cx r - Model.cut_lo cx r)
+        = flat (fun y x => φ y x (corr' (Model.cut_lo cy r + y) (Model.cut_lo cx r + x)))
+          (Model.cut_hi cy r - Model.cut_lo cy r) (Model.cut_hi cx r - Model.cut_lo cx r) := by
       intro φ
       apply flat_congr
       intro y x hy0 hy1 hx0 hx1
       have hh := hcutag y x hy0 hy1 hx0 hx1
       simp only [] at hh ⊢
       rw [hh]
-    set mn := minList (flat (fun y x => corr' (Gen.cut_lo cy r + y) (Gen.cut_lo cx r + x))
-      (Gen.cut_hi cy r - Gen.cut_lo cy r) (Gen.cut_hi cx r - Gen.cut_lo cx r)) with hmn
+    set mn := minList (flat (fun y x => corr' (Model.cut_lo cy r + y) (Model.cut_lo cx r + x))
+      (Model.cut_hi cy r - Model.cut_lo cy r) (Model.cut_hi cx r - Model.cut_lo cx r)) with hmn
     rw [e1 (fun _ _ v => v - mn), e1 (fun y _ v => (v - mn) * (y : ℚ)), e1 (fun _ x v => (v - mn) * (x : ℚ))]
 
 theorem elevation2_congr (corr corr' : ℤ → ℤ → ℚ) (h w : ℤ) (py px height : ℚ) (hag : AgreeOn corr corr' h w) :
     elevation2 corr h w py px height = elevation2 corr' h w py px height := by
   unfold elevation2
   have : ((irange h).flatMap fun (y : ℤ) => (irange w).filterMap fun (x : ℤ) =>
-        if Gen.elev_rmin * Gen.elev_rmin ≤ ((y : ℚ) - py) ^ 2 + ((x : ℚ) - px) ^ 2
+        if Model.elev_rmin * Model.elev_rmin ≤ ((y : ℚ) - py) ^ 2 + ((x : ℚ) - px) ^ 2
         then some ((height - corr y x) ^ 2 / (((y : ℚ) - py) ^ 2 + ((x : ℚ) - px) ^ 2)) else none)
       = ((irange h).flatMap fun (y : ℤ) => (irange w).filterMap fun (x : ℤ) =>
-        if Gen.elev_rmin * Gen.elev_rmin ≤ ((y : ℚ) - py) ^ 2 + ((x : ℚ) - px) ^ 2
+        if Model.elev_rmin * Model.elev_rmin ≤ ((y : ℚ) - py) ^ 2 + ((x : ℚ) - px) ^ 2
         then some ((height - corr' y x) ^ 2 / (((y : ℚ) - py) ^ 2 + ((x : ℚ) - px) ^ 2)) else none) := by
     apply List.flatMap_congr
     intro y hy
@@ -118,14 +118,14 @@ theorem evaluate_congr (corr corr' : ℤ → ℤ → ℚ) (n m : ℕ) (hn : 0 < 
     show corr (evaluate corr n m).cy (evaluate corr n m).cx = corr' (evaluate corr' n m).cy (evaluate corr' n m).cx
     rw [← ecy, ← ecx]
     exact hag _ _ hcy.1 hcy.2 hcx.1 hcx.2
-  have erf : refineCenter corr n m (evaluate corr n m).cy (evaluate corr n m).cx Gen.refine_radius
-      = refineCenter corr' n m (evaluate corr' n m).cy (evaluate corr' n m).cx Gen.refine_radius := by
+  have erf : refineCenter corr n m (evaluate corr n m).cy (evaluate corr n m).cx Model.refine_radius
+      = refineCenter corr' n m (evaluate corr' n m).cy (evaluate corr' n m).cx Model.refine_radius := by
     rw [← ecy, ← ecx]
     exact refineCenter_congr corr corr' n m _ _ hcy hcx hag
-  have hry : (evaluate corr n m).ry = (refineCenter corr n m (evaluate corr n m).cy (evaluate corr n m).cx Gen.refine_radius).1 := rfl
-  have hrx : (evaluate corr n m).rx = (refineCenter corr n m (evaluate corr n m).cy (evaluate corr n m).cx Gen.refine_radius).2 := rfl
-  have hry' : (evaluate corr' n m).ry = (refineCenter corr' n m (evaluate corr' n m).cy (evaluate corr' n m).cx Gen.refine_radius).1 := rfl
-  have hrx' : (evaluate corr' n m).rx = (refineCenter corr' n m (evaluate corr' n m).cy (evaluate corr' n m).cx Gen.refine_radius).2 := rfl
+  have hry : (evaluate corr n m).ry = (refineCenter corr n m (evaluate corr n m).cy (evaluate corr n m).cx Model.refine_radius).1 := rfl
+  have hrx : (evaluate corr n m).rx = (refineCenter corr n m (evaluate corr n m).cy (evaluate corr n m).cx Model.refine_radius).2 := rfl
+  have hry' : (evaluate corr' n m).ry = (refineCenter corr' n m (evaluate corr' n m).cy (evaluate corr' n m).cx Model.refine_radius).1 := rfl
+  have hrx' : (evaluate corr' n m).rx = (refineCenter corr' n m (evaluate corr' n m).cy (evaluate corr' n m).cx Model.refine_radius).2 := rfl
   have hel : (evaluate corr n m).elev2 = elevation2 corr n m (evaluate corr n m).ry (evaluate corr n m).rx (evaluate corr n m).height := rfl
   have hel' : (evaluate corr' n m).elev2 = elevation2 corr' n m (evaluate corr' n m).ry (evaluate corr' n m).rx (evaluate corr' n m).height := rfl
   have ery : (evaluate corr n m).ry = (evaluate corr' n m).ry := by rw [hry, hry', erf]
